@@ -380,7 +380,7 @@ int main(int argc, char** argv) {
           if (!(w == v[i])) fd.add("identity|pGamma|incompleteGamma-wrapper", std::fabs(w - v[i]), "x=" + num(x) + " pGamma(x,alpha,1)=" + num(v[i]) + " incompleteGamma(x,alpha,lnGamma(alpha))=" + num(w));
           if (alpha + 1 <= 200 && x > 0) {
             // shape recurrence P(a+1,x) = P(a,x) - x^a e^-x / Gamma(a+1); both sides documented to 1e-8; the term is computed to < 1e-12
-            double w1 = RandomTools::incompleteGamma(x, alpha + 1, g1), term = std::exp(alpha * std::log(x) - x - g1);
+            double w1 = RandomTools::incompleteGamma(x, alpha + 1, g1), term = std::isinf(x) ? 0.0 : std::exp(alpha * std::log(x) - x - g1);   // (the term vanishes at +inf; inf - inf is not a number)
             double d = std::fabs(w1 - (w - term));
             if (!(d <= 2e-8 + 1e-12)) fd.add("identity|gamma-cdf|shape-recurrence", d, "x=" + num(x) + " P(a+1,x)=" + num(w1) + " P(a,x)=" + num(w) + " x^a e^-x/Gamma(a+1)=" + num(term));
           }
